@@ -30,6 +30,12 @@ META = dict(
                   "all NaN masks of series over {0,1,2}, length 2..5"],
         "thorough": ["series over {0,1,2}, length 2..8, both graph types",
                      "all NaN masks of series over {0,1,2}, length 2..6"]},
+    technique="exact rational reference oracle (Fractions) over generated "
+              "series + affine / time-reversal relations on the observed "
+              "graphs",
+    level_text=("bounded-exhaustive and seeded exploration: every observed "
+                "adjacency bit is compared with the visibility criterion in "
+                "exact arithmetic; held on the executions produced"),
     assumptions=[
         "values/timings are small integers or dyadic rationals so float32 "
         "storage and float32 slope division are order preserving",
